@@ -329,3 +329,20 @@ reg("C15", gen=gen_skel, obligation_files=["Props/C15.v", "Gen/Skel.v"],
 PROPS["C02"]["gen"] = gen_skel
 PROPS["C02"]["obligation_files"] = ["Props/C02.v", "Gen/Skel.v"]
 PROPS["C02"]["trusted_base"] = _ATTACK_TB + _T2_TB
+
+reg("C18", gen=gen_skel, obligation_files=["Props/C18.v", "Gen/Skel.v"],
+    rule="T2: the skeletons of the DNSCaching and ConnectTo dial closures and of resolver.address are regenerated and lockset_ok must hold "
+         "of each by reflection. T1: an in-process DNS server (miekg/dns, loopback UDP) serves 1..8 A/AAAA records (IPv4 only, IPv6 only, "
+         "mixed) per case; the dial function installed by DNSCaching (alone, before and after ConnectTo) over a recording dial is called "
+         "1..20 or 100*addresses..+300 times (10^4 in thorough) from 1..64 goroutines; ConnectTo over 1..6 replacements is dialled 0..200 "
+         "times sequentially or from up to 64 goroutines, plus an unmapped address; every case is non-trivial",
+    clauses={1: "a dial attempted an address that is not resolved for the host, or not exactly one per IP family present", 2: "an address of the resolved set was never dialled in the second half of a long history (the cached set shrank)",
+             3: "a dial failed before reaching the recording dial function", 10: "ConnectTo dialled an address that is not a replacement", 11: "ConnectTo rotation uneven (a replacement used fewer than floor(n/k) or more than ceil(n/k) times)",
+             12: "an unmapped address did not pass through unchanged"},
+    diffs={20: "sequential ConnectTo dial order differs from the model's rotation"},
+    assumptions=["rs/dnscache lookup and refresh are library code; the shuffle is an oracle permutation in the model and a PRNG in the code (coverage clause 2 is probabilistic: miss probability < 1e-11 per address)",
+                 "data-race freedom of the binary is observed with the race detector in the thorough tier, not proved"],
+    trusted_base=_T2_TB + ["in-process DNS server (miekg/dns) and net.DefaultResolver override in the harness"],
+    level_text="dial_targets_resolved, cache_preserved, every_address_possible, connect_to_rotation (any window of consecutive dials spreads floor/ceil over the replacements) and dial_lockset_sound are proved in Coq; dns_caching_dial_lockset / connect_to_dial_lockset / resolver_rotation_atomic are re-proved by reflection on skeletons regenerated from the current source on every run. Tie: translator (T2) + dial histories through a real DNS lookup path judged by a checker defined in Coq.",
+    technique="Coq proofs over a functional dial model and a lockset checker + reflection on regenerated skeletons; recorded dial histories",
+    timeout={"quick": 600, "thorough": 3000})
